@@ -1,10 +1,10 @@
 SPECIFICATION Spec
 CONSTANTS
   Procs = {"p1", "p2", "p3"}
-  MaxClock = 0
+  MaxClock = 1
   MaxIds = 4
   MaxStarts = 4
-  SeedSource = "entropy"
-  Acts = {"Fork", "Thread"}
+  SeedSource = "entropy_once"
+  Acts = {"Thread"}
 INVARIANT IdsUnique
 CHECK_DEADLOCK FALSE
